@@ -97,12 +97,23 @@ def run(pm, ctx):
     # linear_prox_grad guard
     pu = pm.unit("gemclus.sparse._prox_grad")
     lf = pu.func("linear_prox_grad")
+    from ..match import resolve_expr, cfg_node
+    cfgl = CFG(lf)
     divs = [n for n in ast.walk(lf) if isinstance(n, ast.BinOp) and isinstance(n.op, ast.Div)]
-    okg = divs and all(norm_src(d.right).replace(" ", "") == "np.where(W_norms==0,1,W_norms)" for d in divs)
-    if okg:
-        ctx.ok("C17-c", "linear_prox_grad: zero-norm rows divided by 1")
-    else:
-        ctx.violation("C17-c", pu.relpath, "linear_prox_grad", norm_src(divs[0]) if divs else "division", "zero rows are divided by their zero norm", line=lf.lineno)
+    if not divs:
+        ctx.ok("C17-c", "linear_prox_grad: division-free")
+    for d in divs:
+        den = resolve_expr(cfgl, cfg_node(cfgl, d), d.right)
+        guarded = isinstance(den, ast.Call) and call_name(den) == "np.where" and len(den.args) == 3 and isinstance(den.args[0], ast.Compare) \
+            and isinstance(den.args[0].ops[0], ast.Eq) and norm_src(den.args[0].comparators[0]) == "0" and norm_src(den.args[0].left) == norm_src(den.args[2]) \
+            and norm_src(den.args[1]) not in ("0", "0.0")
+        norm_like = any(isinstance(n, ast.Call) and call_name(n) == "np.linalg.norm" for n in ast.walk(resolve_expr(cfgl, cfg_node(cfgl, d), den)))
+        if guarded:
+            ctx.ok("C17-c", f"linear_prox_grad: / {norm_src(d.right)[:40]}", "zero-norm rows are divided by a non-zero constant")
+        elif norm_like:
+            ctx.violation("C17-c", pu.relpath, "linear_prox_grad", norm_src(d)[:160], "rows are divided by their norm without a guard for zero rows (0/0 = NaN)", line=d.lineno)
+        else:
+            ctx.unrecognised("C17-c", f"linear_prox_grad: / {norm_src(d.right)[:40]}", "denominator is neither a guarded nor a raw row norm")
     # ---- e raw exponentials
     ctx.rule("C17-e", "np.exp of an unbounded value overflows to inf for moderately scaled inputs (inf/inf = NaN in a hand-rolled softmax)", floor=0)
     n_exp = 0
